@@ -62,6 +62,28 @@ static void run_case(const std::string& cid, Toks& t) {
             else C = B0->mult_T((COOMatrix*)A0);
         }
         printf("%s R %s\n", cid.c_str(), mat_str(C).c_str()); delete A0; delete B0; delete C;
+    } else if (op == "bspmv" || op == "bconv") {
+        // block literal: bfmt nbr nbc br bc nblk (I J v*(br*bc))*
+        std::string kind = (op == "bspmv") ? t.next() : std::string("");
+        std::string bfmt = t.next(); int nbr = t.next_int(), nbc = t.next_int(), br = t.next_int(), bc = t.next_int(), nblk = t.next_int();
+        BCOOMatrix* A0 = new BCOOMatrix(nbr, nbc, br, bc);
+        for (int k = 0; k < nblk; k++) { int I = t.next_int(), J = t.next_int(); std::vector<double> v = t.nums(br * bc); A0->add_value(I, J, v.data()); }
+        Matrix* A = A0;
+        if (bfmt == "bsr") A = A0->to_BSR(); else if (bfmt == "bsc") A = A0->to_BSC();
+        if (op == "bconv") { CSRMatrix* C = A->to_CSR(); printf("%s R %s\n", cid.c_str(), mat_str(C).c_str()); return; }
+        int nx = t.next_int(); std::vector<double> xv = t.nums(nx);
+        int nb = t.next_int(); std::vector<double> bv = t.nums(nb);
+        Vector x(nx), b(nb); for (int i = 0; i < nx; i++) x[i] = xv[i]; for (int i = 0; i < nb; i++) b[i] = bv[i];
+        if (kind == "mult") A->mult(x, b);
+        else if (kind == "mult_T") A->mult_T(x, b);
+        else if (kind == "mult_append") A->mult_append(x, b);
+        else if (kind == "mult_append_T") A->mult_append_T(x, b);
+        else if (kind == "mult_append_neg") A->mult_append_neg(x, b);
+        else if (kind == "mult_append_neg_T") A->mult_append_neg_T(x, b);
+        else if (kind == "residual") { Vector r(nbr * br); for (int i = 0; i < nbr * br; i++) r[i] = 777.0; A->residual(x, b, r);
+            printf("%s V %s\n", cid.c_str(), nums_str(r.data(), r.size()).c_str()); return; }
+        else throw std::runtime_error("kind " + kind);
+        printf("%s V %s\n", cid.c_str(), nums_str(b.data(), b.size()).c_str());
     } else throw std::runtime_error("unknown op " + op);
 }
 
